@@ -10,8 +10,9 @@
 //!  * integer literals (underscores, suffixes), `u8::MAX`/`u16::MAX`/`u32::MAX`/`usize::MAX`
 //!    (optionally `as <wider uint>`), `lit << lit` (emitted as `N.shiftl`, folded by Coq, not here);
 //!  * comparisons `< <= > >= == !=`, short-circuit `&& || !`;
-//!  * `a + b`, `a - b` (checked: `uadd`/`usub` of Index/Prelude.v panic on usize overflow /
-//!    underflow), `a.saturating_mul(b)`, `s.len()`, `s[i]` (panics out of bounds), `s[a..b]`,
+//!  * `a + b`, `a - b` on usize quantities only (checked: `uadd`/`usub` of Index/Prelude.v panic on
+//!    usize overflow / underflow; arithmetic mentioning a 32-bit variable or a slice element is
+//!    rejected), `a.saturating_mul(b)`, `s.len()`, `s[i]` (panics out of bounds), `s[a..b]`,
 //!    `s[a..]` (panic unless `a <= b <= len`);
 //!  * `let [mut] x = e;`, `x = e;`, `x += e;`, `x -= e;`, `if c {..} [else ..]`, `return e`,
 //!    `loop {..}` with `break v`, `while c {..}`, `let x = loop {..};`,
@@ -108,6 +109,8 @@ struct Gen {
     effectful: bool,
     uses_bs: bool,
     loop_stack: Vec<LoopCtx>,
+    /// variables of a 32-bit type (u32 / id newtypes): checked arithmetic is modelled for usize only
+    narrow: Vec<String>,
 }
 
 fn coq_name(s: &str) -> String {
@@ -153,6 +156,32 @@ fn type_name(t: &Type) -> Option<String> {
 
 fn is_uint_like(t: &Type) -> bool {
     type_name(t).map(|n| UINT_TYPES.contains(&n.as_str()) || ID_TYPES.contains(&n.as_str())).unwrap_or(false)
+}
+
+/// does the expression mention a 32-bit variable or a slice element (elements are 32-bit ids)?
+fn mentions_narrow(e: &Expr, narrow: &[String]) -> bool {
+    struct V<'n> {
+        narrow: &'n [String],
+        found: bool,
+    }
+    impl<'ast, 'n> syn::visit::Visit<'ast> for V<'n> {
+        fn visit_expr_path(&mut self, p: &'ast syn::ExprPath) {
+            if let Some(id) = p.path.get_ident() {
+                if self.narrow.iter().any(|n| id == n) {
+                    self.found = true;
+                }
+            }
+        }
+        fn visit_expr_index(&mut self, ix: &'ast syn::ExprIndex) {
+            if !matches!(&*ix.index, Expr::Range(_)) {
+                self.found = true;
+            }
+            syn::visit::visit_expr_index(self, ix);
+        }
+    }
+    let mut v = V { narrow, found: false };
+    syn::visit::Visit::visit_expr(&mut v, e);
+    v.found
 }
 
 impl Gen {
@@ -267,6 +296,9 @@ impl Gen {
                     BinOp::Add(_) | BinOp::Sub(_) => {
                         if self.pure_mode {
                             return err(e, "checked arithmetic in a pure function");
+                        }
+                        if mentions_narrow(&b.left, &self.narrow) || mentions_narrow(&b.right, &self.narrow) {
+                            return err(e, "arithmetic on a 32-bit quantity (only usize arithmetic is modelled)");
                         }
                         let (mut p1, a, ta) = self.value(&b.left, scope)?;
                         let (p2, c, tc) = self.value(&b.right, scope)?;
@@ -458,6 +490,9 @@ impl Gen {
                     Some(i) if i.diverge.is_none() => &*i.expr,
                     _ => return err(first, "let without initialiser / let-else"),
                 };
+                if mentions_narrow(init, &self.narrow) {
+                    self.narrow.push(name.clone());
+                }
                 let k2 = Rc::new(K::Let(name, rest, scope.clone(), k.clone()));
                 self.control(init, &scope, &k2)
             }
@@ -536,6 +571,9 @@ impl Gen {
                 };
                 if lookup(scope, &name) != Some(Ty::N) {
                     return err(e, "compound assignment to a non-integer");
+                }
+                if self.narrow.contains(&name) || mentions_narrow(&b.right, &self.narrow) {
+                    return err(e, "arithmetic on a 32-bit quantity (only usize arithmetic is modelled)");
                 }
                 let (mut p, v, t) = self.value(&b.right, scope)?;
                 if t != Ty::N {
@@ -771,6 +809,7 @@ fn translate(item: &Item, src: &str) -> R<(String, bool)> {
         return Err("async / unsafe / generic function".into());
     }
     let mut scope: Scope = Vec::new();
+    let mut narrow: Vec<String> = Vec::new();
     for a in &f.sig.inputs {
         match a {
             FnArg::Receiver(r) => {
@@ -788,6 +827,9 @@ fn translate(item: &Item, src: &str) -> R<(String, bool)> {
                     return err(a, "parameter of unsupported type");
                 }
                 check_name(&name)?;
+                if type_name(&pt.ty).map(|n| n != "usize" && n != "u64").unwrap_or(true) {
+                    narrow.push(name.clone());
+                }
                 scope.push((name, Ty::N));
             }
         }
@@ -820,6 +862,7 @@ fn translate(item: &Item, src: &str) -> R<(String, bool)> {
         effectful: false,
         uses_bs: false,
         loop_stack: vec![],
+        narrow: narrow.clone(),
     };
     if let Ok(body) = g.block(&f.block.stmts, scope.clone(), &Rc::new(K::Ret)) {
         if !g.effectful && g.aux.is_empty() {
@@ -836,6 +879,7 @@ fn translate(item: &Item, src: &str) -> R<(String, bool)> {
         effectful: false,
         uses_bs: false,
         loop_stack: vec![],
+        narrow: narrow.clone(),
     };
     let body = g.block(&f.block.stmts, scope.clone(), &Rc::new(K::Ret))?;
     let mut out = String::new();
